@@ -138,13 +138,28 @@ func TestC09(t *testing.T) {
 		sc.Front = rapid.SampledFrom([]string{"drc", "do-approve"}).Draw(rt, "front")
 		sc.Verb = rapid.SampledFrom([]string{"approve", "approve", "compare"}).Draw(rt, "verb")
 		f := drawFault(rt, fam, 60, rapid.IntRange(0, 14).Draw(rt, "stallOK") == 0)
-		target := rapid.SampledFrom([]string{"", "change", "change", "joined1", "joined1", "joined1", "joined2", "save"}).Draw(rt, "target")
+		target := rapid.SampledFrom([]string{"", "change", "change", "joined1", "joined1", "joined1", "joined2", "save", "retrieve"}).Draw(rt, "target")
 		if strings.HasPrefix(target, "joined") && (fam == "asa" || fam == "ios") {
 			// Prefer a pair whose script has a two-command packet.
 			for i := 0; i < 12 && len(joinedSecond(sc)) == 0; i++ {
 				front, verb := sc.Front, sc.Verb
 				sc = genBase(rt, fam)
 				sc.Front, sc.Verb = front, verb
+			}
+		}
+		if target == "retrieve" {
+			// An error text instead of the configuration goes unnoticed
+			// least when nothing else can fail afterwards: an IOS target
+			// without interface definitions.
+			if fam == "ios" {
+				for i := 0; i < 12 && strings.Contains(sc.Target["router"], "interface "); i++ {
+					front, verb := sc.Front, sc.Verb
+					sc = genBase(rt, fam)
+					sc.Front, sc.Verb = front, verb
+				}
+			}
+			if (fam == "ios" || fam == "asa") && rapid.Bool().Draw(rt, "retrieveError") {
+				f.Kind = "error"
 			}
 		}
 		c := sc.Case("C09")
